@@ -259,6 +259,11 @@ def _fam():
           [["clamp"], ["linear", "f64"], ["strided", "u64", 2], ["array", "f32", 1]],
           [["affine"], ["clamp"], ["nn", "f32"], ["hilbert", "u64"], ["array", "f32", 1]],
           [["backup"], ["affine"], ["linear", "f32"], ["strided", "u64", 2], ["array", "f64", 2]]]
+    # the same layer twice with the same configuration type (each level must keep its own configuration through dump / load)
+    S += [[["affine"], ["affine"], ["identity", "f64", 2]],
+          [["affine"], ["affine"], ["linear", "f32"], ["strided", "u64", 2], ["array", "f32", 1]],
+          [["clamp"], ["clamp"], ["identity", "f32", 2]],
+          [["backup"], ["backup"], ["strided", "u64", 2], ["array", "f32", 2]]]
     return S
 
 
